@@ -320,4 +320,54 @@ example : toMathBig ⟨.float, .flt (1/3)⟩ .float = some .floatRounded := by d
 example : toMathBig ⟨.float, .flt (5/2)⟩ .int = none := by decide +kernel
 example : toMathBig ⟨.int, .int (2 ^ 100)⟩ .rat = some (.rat (2 ^ 100)) := by decide +kernel
 
+/-! ### shift by a typed constant count (`prepareShift`) -/
+
+/-- PARTIAL (unsigned count types, Int/Rune operands): `x << T(c)` / `const k T = c; x << k` with an
+    untyped constant `x` is the CONSTANT shift by the value of the typed count — the result is an
+    untyped constant of any size (`1 << uint(70)`), exactly as for an untyped count — whenever `T(c)`
+    is a valid typed constant (see `convert_accepts_iff_representable`), and an error otherwise.
+    Missing for FULL: the code rejects counts of SIGNED types (`1 << int8(3)`: reflect.Value.Uint panics)
+    and Float/Complex-kind operands (`1.0 << uint(3)`), which Go accepts: known findings
+    `untyped-rejects-valid-sh[lr]Ts-*`, `untyped-rejects-valid-sh[lr]Tu-(float|complex)-*`. -/
+theorem untyped_shift_typed_count_partial (op : BinOp) (hop : op = .shl ∨ op = .shr) (x count : Lit)
+    (hx : x.wf = true) (t : IntT) (hs : t.signed = false) (hk : isIntKind x.kind = true) :
+    (∀ n, convert count (.int t) = some (.int n) →
+      (shiftTypedCount op x count t).map abs = binop op (abs x) (.num .int (Cx.ofInt n))) ∧
+    (convert count (.int t) = none → shiftTypedCount op x count t = none) := by
+  constructor
+  · intro n hn
+    have := shift_refines op hop x ⟨.int, .int n⟩ hx rfl
+    have hb : binaryExprUntyped op x ⟨.int, .int n⟩ = shiftUntyped op x ⟨.int, .int n⟩ := by
+      rcases hop with rfl | rfl <;> rfl
+    simp only [shiftTypedCount, hn, hk, hs, if_true, Bool.false_eq_true, if_false]
+    rw [← hb, this]
+    simp [abs, nkind]
+  · intro hn
+    simp [shiftTypedCount, hn]
+
+example : shiftTypedCount .shl ⟨.int, .int 1⟩ ⟨.int, .int 70⟩ ⟨false, 8⟩ = some ⟨.int, .int 1180591620717411303424⟩ := by
+  decide +kernel
+example : shiftTypedCount .shl ⟨.int, .int 1⟩ ⟨.int, .int 256⟩ ⟨false, 8⟩ = none := by decide +kernel
+
+/-! ### repeated execution of a compiled math/big conversion (`makeMathBigFun`) -/
+
+/-- However often the closure compiled for a conversion of an untyped constant to *big.Int/Rat/Float is
+    executed, and whatever the program does in place to the objects it received before (`f`, e.g.
+    `x.Add(x, x)`), the i-th execution returns a NEW object (pointer `|heap| + i`, so all distinct and
+    distinct from every older object) holding exactly the constant `c`. -/
+theorem big_conversion_fresh (c : BigRes) (f : BigRes → BigRes) (n : Nat) (h : BigHeap) :
+    (runBigFun c f n h).2 = (List.range n).map (fun i => (h.cells.length + i, some c)) := by
+  induction n generalizing h with
+  | zero => simp [runBigFun]
+  | succ n ih =>
+    simp only [runBigFun, execBigFun]
+    rw [ih]
+    simp only [BigHeap.modify, BigHeap.get, List.length_modify, List.length_append, List.length_singleton]
+    rw [List.range_succ_eq_map]
+    simp [List.map_map, Function.comp_def, Nat.add_assoc, Nat.add_comm 1]
+
+
+example : (runBigFun (.int 5) (fun _ => .int 10) 3 ⟨[]⟩).2 = [(0, some (.int 5)), (1, some (.int 5)), (2, some (.int 5))] := by
+  decide +kernel
+
 end Untyped
